@@ -74,6 +74,7 @@ type harnessResult struct {
 	decided    int
 	timedOut   bool
 	maxDepth   int
+	params     map[string]int
 }
 
 var budgetOverride int
@@ -83,6 +84,9 @@ var pinned *replayVec
 var params map[string]int // current harness parameters (read-only during exploration)
 
 func main() {
+	if d := os.Getenv("VP_VERIFDIR"); d != "" {
+		verifDir = d
+	}
 	if len(os.Args) < 2 {
 		fmt.Fprintln(os.Stderr, "usage: gosym check -prop ID -tier quick|thorough | gosym replay -prop ID -file F")
 		os.Exit(2)
@@ -402,7 +406,7 @@ func cmdCheck(args []string) int {
 			if perSite[key] >= 2 {
 				continue
 			}
-			path, out, err := rp.run(r.cfg, v.Harness, v.Model, v.Choices, *tier)
+			path, out, err := rp.run(r.cfg, v.Harness, v.Model, v.Choices, *tier, r.params)
 			if err != nil {
 				fmt.Println("REPLAY-ERROR", err)
 				broken = true
@@ -449,7 +453,7 @@ func cmdCheck(args []string) int {
 					broken = true
 					continue
 				}
-				path, out, err := rp.run(r.cfg, r.cfg.Func, cw.Model, cw.Choices, *tier)
+				path, out, err := rp.run(r.cfg, r.cfg.Func, cw.Model, cw.Choices, *tier, r.params)
 				if err != nil {
 					fmt.Println("REPLAY-ERROR", err)
 					broken = true
@@ -575,7 +579,7 @@ func explore(ld *loaded, h HarnessCfg, tier string, workers int, known []KnownFi
 	}
 	t0 := time.Now()
 	w.push(h.Func, nil)
-	res := &harnessResult{cfg: h, funcs: map[string]int{}}
+	res := &harnessResult{cfg: h, funcs: map[string]int{}, params: params}
 	res.stats.PathKinds = map[string]int{}
 	var wg sync.WaitGroup
 	var rmu sync.Mutex
@@ -727,12 +731,12 @@ type replayVec struct {
 	Params  map[string]int    `json:"params"`
 }
 
-func (rp *replayer) run(h HarnessCfg, harness string, model map[string]uint64, choices map[string]int64, tier string) (string, string, error) {
+func (rp *replayer) run(h HarnessCfg, harness string, model map[string]uint64, choices map[string]int64, tier string, pr map[string]int) (string, string, error) {
 	bin, err := rp.binary(h.Dir)
 	if err != nil {
 		return "", "", err
 	}
-	vec := replayVec{Harness: harness, Tier: tier, Values: model, Choices: choices, Params: h.Params[tier]}
+	vec := replayVec{Harness: harness, Tier: tier, Values: model, Choices: choices, Params: pr}
 	raw, _ := json.MarshalIndent(vec, "", " ")
 	sum := sha1.Sum(raw)
 	dir := filepath.Join(verifDir, "replays", rp.prop)
@@ -842,7 +846,7 @@ func writeEvidence(prop, tier string, seed int, pc PropCfg, results []*harnessRe
 		}
 		perHarness = append(perHarness, map[string]any{
 			"harness": r.cfg.Func, "kernel": r.cfg.Kernel, "what": r.cfg.What, "bounds": r.cfg.Bounds,
-			"params": r.cfg.Params[tier], "paths": r.stats.Paths, "path_kinds": r.stats.PathKinds,
+			"params": r.params, "paths": r.stats.Paths, "path_kinds": r.stats.PathKinds,
 			"solver_decisions": r.decided, "if_converted": r.stats.Merged, "assert_labels": r.asserts,
 			"queries": map[string]int{"sat": r.queries.Sat, "unsat": r.queries.Unsat, "unknown": r.queries.Unknown},
 			"solver":  defaultStr(r.cfg.Solver, "z3"), "solver_time_s": round1(r.solverTime.Seconds()), "wall_s": round1(r.wall.Seconds()),
